@@ -215,6 +215,18 @@ func TestC11(t *testing.T) {
 			nm["[]string"] = "java.util.HashSet"
 			tm["java.util.HashSet"] = reflect.TypeOf([]string{})
 		}
+		// two Go types that go by one class name: what an instance remembers about a class by its name (field lists,
+		// field kinds, definitions) belongs to the type it was remembered for
+		if !noNames && rapid.IntRange(0, 3).Draw(rt, "twoTypesOneClassName") == 0 {
+			a1 := &zoo.AcctV1{ID: 7, Name: "ann", Note: "first"}
+			a2 := &zoo.AcctV2{Name: "bob", ID: 1 << 40, Tags: []string{"x"}}
+			vals = append(vals, a1, a2, []interface{}{a2, a1, a2}, zoo.AcctV2{Name: "by value", ID: -5})
+			descs = append(descs, "special AcctV1 as com.bank.Account", "special AcctV2 as com.bank.Account", "special both in one list", "special AcctV2 by value")
+			for k, v := range zoo.OneClassName() {
+				nm[k] = v
+			}
+			tm["com.bank.Account"] = reflect.TypeOf(zoo.AcctV1{})
+		}
 		fullNM := nm // the messages to be decoded come from a peer that uses every name
 		if noNames {
 			nm = map[string]string{}
